@@ -307,11 +307,14 @@ CHECKS = {
         assumptions=["4-byte word granularity of the stream and of gaps (DMA words)", "card device number 0", "the first 60 reads deliver at least 4 frames (StartRun gives up after 100 empty reads)"],
     ),
     "C19": dict(
-        pkg=".", hdir="root", test="TestVerif_C19", wal=True,
-        quick=dict(shards=16, checks=6000, timeout=900),
-        thorough=dict(shards=16, checks=90000, timeout=5400),
+        pkg=".", hdir="root", test="TestVerif_C19R?", ids=["C19", "C19R"], wal=True,
+        quick=dict(shards=16, checks=1, per_test={"TestVerif_C19": 6000, "TestVerif_C19R": 25}, timeout=900),
+        thorough=dict(shards=16, checks=1, per_test={"TestVerif_C19": 90000, "TestVerif_C19R": 800}, timeout=5400),
         technique="property-based testing (rapid): validity predicates over the identity tables of every accepted configuration + decoded file headers of a real START/STOP cycle",
-        rule="rapid-generated Lancero configurations (1-3 cards with distinct device numbers 0-5 in any order, 1-8 columns, 1-40 rows (mostly equal "
+        rule="(R) what clients are told: the real SourceControl configures and starts its Lancero source (one in-memory card, 1-2 columns x 2-4 rows) "
+             "2-4 times in a row with generated first-row numbers and column separations, often with an unchanged number of channels; after every "
+             "Start the channel groups of the STATUS message are compared with the channel numbers in use. "
+             "(main) rapid-generated Lancero configurations (1-3 cards with distinct device numbers 0-5 in any order, 1-8 columns, 1-40 rows (mostly equal "
              "across cards), first row -2..1000, card and column separations 0, negative, exactly sufficient, one too small, larger; optionally the "
              "same source object prepared a second time with another geometry), Abaco group layouts (1-5 groups of 1-12 channels: adjacent, gapped, "
              "overlapping by one or more channels, duplicated, arriving in any order; real Sample() with a scripted packet producer) and ROACH channel "
@@ -328,10 +331,10 @@ CHECKS = {
         assumptions=["Lancero cards have distinct device numbers (Configure rejects repeats)"],
     ),
     "C16": dict(
-        pkg=".", hdir="root", test="TestVerif_C16(Crash)?", ids=["C16", "C16CRASH"], wal=True,
+        pkg=".", hdir="root", test="TestVerif_C16(Crash|RPC)?", ids=["C16", "C16CRASH", "C16RPC"], wal=True,
         env={"VERIF_NO_GLOBAL_CHANNELS": "1"},
-        quick=dict(shards=32, checks=1, per_test={"TestVerif_C16": 20, "TestVerif_C16Crash": 1}, timeout=900),
-        thorough=dict(shards=48, checks=2, per_test={"TestVerif_C16": 600, "TestVerif_C16Crash": 24}, timeout=5400),
+        quick=dict(shards=32, checks=1, per_test={"TestVerif_C16": 20, "TestVerif_C16Crash": 1, "TestVerif_C16RPC": 6}, timeout=900),
+        thorough=dict(shards=48, checks=2, per_test={"TestVerif_C16": 600, "TestVerif_C16Crash": 24, "TestVerif_C16RPC": 150}, timeout=5400),
         technique="stateful property-based testing (rapid) of the real status publisher against a last-message-per-topic model; round trip through the real save and the start-up read path; "
                   "fault enumeration: kill -9 on entry to every file-system call of a save (strace syscall injection) followed by the start-up read path",
         rule="(a,b) rapid-generated histories of 1-30 status updates over 3, 8 or all 21 topics (real tags, incl. no-save and no-publish ones; 3 value "
